@@ -32,7 +32,8 @@ def run(ctx):
     st = state["stats"]
     if cases:
         for k in ("op_set", "op_del_announced", "op_cfg", "op_node", "oracle_nonempty_route_sets", "services_with_peers",
-                  "sessions_closed_by_node", "sessions_closed_by_cfg", "final_prefix_shared_by_services", "unchanged_peer_kept_checks"):
+                  "sessions_closed_by_node", "sessions_closed_by_cfg", "final_prefix_shared_by_services", "unchanged_peer_kept_checks",
+                  "whole_cfg", "whole_set", "whole_del", "whole_dual_stack_across_pools", "whole_expected_routes"):
             if st.get(k, 0) == 0:
                 raise vlib.Broken("generator degenerate: counter %r is zero: %r" % (k, st))
 
